@@ -122,5 +122,42 @@ func init() {
 	})
 }
 
+// c20APIRoots is the concurrent/deterministic API set derived from the text of C20.
+func c20APIRoots(c *core.Ctx) []*ssa.Function {
+	var out []*ssa.Function
+	for _, m := range []string{"And", "Or", "Xor", "Not", "DivideBy", "Settle"} {
+		out = append(out, c.SSAFunc("", "Path."+m), c.SSAFunc("", "Paths."+m))
+	}
+	for _, m := range []string{"Stroke", "Offset", "Flatten", "Dash"} {
+		out = append(out, c.SSAFunc("", "Path."+m))
+	}
+	for _, f := range []string{"NewTextLine", "NewTextBox", "RichText.ToText", "FontFace.Glyphs", "FontFace.TextWidth", "FontFace.ToPath", "Font.Face", "FontFamily.Face",
+		"LoadFont", "LoadFontFile", "LoadFontCollection", "LoadSystemFont", "FontFamily.LoadFont", "FontFamily.LoadFontFile", "FontFamily.LoadFontCollection", "FontFamily.LoadSystemFont",
+		"Canvas.RenderTo", "Canvas.RenderViewTo"} {
+		out = append(out, c.SSAFunc("", f))
+	}
+	out = append(out, c.SSAFunc("renderers/rasterizer", "Draw"))
+	for _, b := range backends {
+		for _, m := range []string{"RenderPath", "RenderText", "RenderImage"} {
+			out = append(out, c.SSAFunc(b.rel, b.recv+"."+m))
+		}
+	}
+	return out
+}
+
+func init() {
+	register("C20", &Property{
+		Title: "Concurrent use on independent objects is race-free and deterministic",
+		Explanation: "Decides, for every schedule and history: (1) no package-level variable of the module is stored outside package initialisation except inside a sync.Once/OnceFunc body, with the mutex of the same variable held (dominating Lock, no intervening Unlock), or through sync/atomic, and mutex-protected variables are also read under the mutex; (2) every function that reads the once-initialised pool variables is reachable from the concurrent API set only through a function whose once-call dominates all its other calls; (3) every object taken from a sync.Pool is completely overwritten or has every field stored before its first other use (no state carried between calls); (4) every range over a map in the module is order-independent by construction (collect-then-sort, commutative reductions, per-entry updates, total-order arg-best) or is a reviewed/known entry. NOT decided: races inside third-party packages, use-after-Put of pooled objects, writes through shared *Font objects (see E1 when wired), the naming of unnamed fonts by a global counter (inherent to the API).",
+		Assumptions: []string{"sync, sync/atomic behave as documented", "the API set is the one listed in DESIGN.md §3 C20"},
+		Run: func(c *core.Ctx, r *core.Report) {
+			E7Globals(c, r)
+			E7OnceBeforeUse(c, r, c20APIRoots(c))
+			E7PoolReinit(c, r)
+			E7MapOrder(c, r)
+		},
+	})
+}
+
 // RunMutant is the entry point of the self-validation sub-process (thorough tier).
 func RunMutant(args []string) int { return runMutant(args) }
